@@ -5,6 +5,11 @@ import (
 	"fmt"
 	"os"
 
+	"io"
+	"log"
+
+	"github.com/sirupsen/logrus"
+
 	"verif/harness/internal/core"
 	"verif/harness/internal/props"
 )
@@ -18,6 +23,7 @@ var checks = map[string]entry{
 	"C02": {"model_checking", props.C02},
 	"C09": {"model_checking", props.C09},
 	"C10": {"model_checking", props.C10},
+	"C13": {"model_checking", props.C13},
 }
 
 func main() {
@@ -28,6 +34,8 @@ func main() {
 	if os.Args[1] == "--child" {
 		os.Exit(props.Child(os.Args[2:]))
 	}
+	logrus.SetOutput(io.Discard)
+	log.SetOutput(io.Discard)
 	id, tier := os.Args[1], os.Args[2]
 	e, ok := checks[id]
 	if !ok {
